@@ -873,9 +873,10 @@ private:
 	}
 	
 	///Read from a file
-	bool read_fits_core(fitsfile*, const std::string& filePath="");
+	///\param fileSize the total size of the data being read, if known, otherwise zero
+	bool read_fits_core(fitsfile*, const std::string& filePath="", size_t fileSize=0);
 	///The part of read_fits_core which can fail with the table half built
-	bool read_fits_core_impl(fitsfile*, const std::string& filePath);
+	bool read_fits_core_impl(fitsfile*, const std::string& filePath, size_t fileSize);
 	
 	///Write to a file
 	void write_fits_core(fitsfile*) const;
